@@ -38,7 +38,11 @@ Kinds ==
       /\ (SampleKinds => k.accept # "text" /\ k.ctype \in {"json", "xml", "bad", "absent"}) }
 
 FormatAccessors == {"ResponseFormat", "ResponseFormatText", "ResponseFormatCharset"}
-Accessors == {"RouteInfo", "ContentType", "Authorize", "BindAndValidate", "ResetAuth"} \cup FormatAccessors
+\* AuthorizeFresh: Authorize handed a MatchedRoute value the asker just obtained from the public Context.LookupRoute
+\* (not the one earlier calls were given, so its Authenticator field is still unset): what is reused hangs on the
+\* request value, not on the route value (seed C09-16)
+AuthAccessors == {"Authorize", "AuthorizeFresh"}
+Accessors == {"RouteInfo", "ContentType", "BindAndValidate", "ResetAuth"} \cup AuthAccessors \cup FormatAccessors
 
 \* ResponseFormatCharset offers <<"text/plain; charset=utf-8">>: an offer is matched ignoring its parameters and
 \* returned (and remembered) exactly as offered
@@ -66,8 +70,8 @@ BindOutcome(in, m) ==
 
 Call(in, m, a) ==
   CASE a = "RouteInfo" ->
-         IF m.route THEN Res(m, <<Pattern(in.op), IdOf(in)>>, TRUE, FALSE)
-         ELSE Res([m EXCEPT !.route = TRUE, !.lookups = @ + 1], <<Pattern(in.op), IdOf(in)>>, FALSE, FALSE)
+         IF m.route THEN Res(m, (<<Pattern(in.op), IdOf(in)>> \o RouteView), TRUE, FALSE)
+         ELSE Res([m EXCEPT !.route = TRUE, !.lookups = @ + 1], (<<Pattern(in.op), IdOf(in)>> \o RouteView), FALSE, FALSE)
     [] a = "ContentType" ->
          IF m.ct # << >> THEN Res(m, m.ct, TRUE, FALSE)
          ELSE IF ~CtypeParses(in) THEN Res(m, <<"err">>, FALSE, TRUE)
@@ -77,7 +81,7 @@ Call(in, m, a) ==
          ELSE LET f == NegotiatedBy(in, a) IN
               IF f = << >> THEN Res(m, <<"">>, TRUE, FALSE)
               ELSE Res([m EXCEPT !.fmt = f], f, FALSE, FALSE)
-    [] a = "Authorize" ->
+    [] a \in AuthAccessors ->
          IF ~Secured(in.op) THEN Res(m, <<"noauth">>, FALSE, TRUE)
          ELSE IF m.pr # << >> THEN Res(m, m.pr \o m.sc, TRUE, FALSE)
          ELSE IF AuthOK(in)
@@ -99,17 +103,17 @@ MemoHit(m, a) ==
   \/ a = "RouteInfo" /\ m.route
   \/ a = "ContentType" /\ m.ct # << >>
   \/ a \in FormatAccessors /\ m.fmt # << >>
-  \/ a = "Authorize" /\ m.pr # << >>
+  \/ a \in AuthAccessors /\ m.pr # << >>
   \/ a = "BindAndValidate" /\ m.bound # << >>
 
 ReusedNotRecomputed(in, m, a) ==
   LET r == Call(in, m, a) IN
   MemoHit(m, a) => /\ r.same                                   \* the same request value comes back
                    /\ r.m = m                                  \* nothing recomputed, no counter moves
-                   /\ r.ret = (CASE a = "RouteInfo" -> <<Pattern(in.op), IdOf(in)>>
+                   /\ r.ret = (CASE a = "RouteInfo" -> (<<Pattern(in.op), IdOf(in)>> \o RouteView)
                                  [] a = "ContentType" -> m.ct
                                  [] a \in FormatAccessors -> m.fmt
-                                 [] a = "Authorize" -> m.pr \o m.sc
+                                 [] a \in AuthAccessors -> m.pr \o m.sc
                                  [] a = "BindAndValidate" -> m.bound)
 
 CellsStable(in, m, a) ==
